@@ -415,10 +415,61 @@ theorem reap_single_snapshot_noop (E : XExt) (s : Store) (h1 : snapCount s.files
   · split <;> simp
   · rw [hfiles]; simp [h1]
 
-/-! ### non-vacuity -/
 def exE : XExt := { crc := fun b => (b.map (·.toNat)).sum, validDb := fun _ => true, validWal := fun _ => true,
                     replay := fun d ws => d ++ ws.flatten }
 
+
+/-! ### resuming an interrupted reap plan -/
+
+/-- **resume_checks_remaining_wals.** A resumed plan consolidates only after every WAL file it
+has yet to consume matched its recorded checksum: corruption of those files present when the
+node starts is detected before the resumed reap folds them in. -/
+theorem resume_checks_remaining_wals (E : XExt) (s : Store) (k : Nat) (hp : s.plan = some k)
+    (db : DataFile) (wals : List DataFile) (hc : chainFiles s = db :: wals)
+    (h : (resumePlan E s).2 = .ok) :
+    ∀ f ∈ wals, ∀ n, f.side = .crc n → E.crc f.content = n := by
+  simp only [resumePlan, hp, hc] at h
+  have hall' : (if k = 0 then db :: wals else wals).all (fileCrcOk E) = true := by
+    cases hb : (if k = 0 then db :: wals else wals).all (fileCrcOk E) with
+    | true => rfl
+    | false => rw [hb] at h; simp at h
+  intro f hf n hs
+  have hmem : f ∈ (if k = 0 then db :: wals else wals) := by
+    split
+    · exact List.mem_cons_of_mem _ hf
+    · exact hf
+  have := (List.all_eq_true.1 hall') f hmem
+  simpa [fileCrcOk, hs] using this
+
+/-- the statement one would like for the database file as well -/
+def resume_checks_db_full : Prop :=
+  ∀ (E : XExt) (s : Store) (k : Nat) (db : DataFile) (wals : List DataFile), s.plan = some k →
+    chainFiles s = db :: wals → (resumePlan E s).2 = .ok → ∀ n, db.side = .crc n → E.crc db.content = n
+
+/-- it holds while the interrupted run had not started the checkpoint (nothing consumed) -/
+theorem resume_checks_db_partial (E : XExt) (s : Store) (db : DataFile) (wals : List DataFile)
+    (hp : s.plan = some 0) (hc : chainFiles s = db :: wals) (h : (resumePlan E s).2 = .ok) :
+    ∀ n, db.side = .crc n → E.crc db.content = n := by
+  simp only [resumePlan, hp, hc, if_true] at h
+  have hall' : (db :: wals).all (fileCrcOk E) = true := by
+    cases hb : (db :: wals).all (fileCrcOk E) with
+    | true => rfl
+    | false => rw [hb] at h; simp at h
+  intro n hs
+  have := (List.all_eq_true.1 hall') db (by simp)
+  simpa [fileCrcOk, hs] using this
+
+/-- **witness**: once the interrupted run has checkpointed a WAL into the database, the
+database no longer matches any record (its sidecar is rewritten only at the end of the plan),
+so the resume cannot tell a half-checkpointed database from a corrupted one and goes ahead -/
+theorem resume_checks_db_witness : ¬ resume_checks_db_full := by
+  intro h
+  have := h exE { files := [⟨[9, 9], .crc 3, true, true, 0⟩, ⟨[4], .crc 4, false, true, 1⟩], plan := some 1 }
+    1 ⟨[9, 9], .crc 3, true, true, 0⟩ [⟨[4], .crc 4, false, true, 1⟩] rfl (by decide) (by decide) 3 rfl
+  revert this
+  decide
+
+/-! ### non-vacuity -/
 example :
     let good : Store := { files := [⟨[1, 2], .crc 3, true, true, 0⟩, ⟨[4], .crc 4, false, true, 1⟩] }
     let bad : Store := { files := [⟨[1, 3], .crc 3, true, true, 0⟩, ⟨[4], .crc 4, false, true, 1⟩] }
